@@ -232,6 +232,9 @@ def world_plans(draw, tier):
              'granularity': draw(st.sampled_from(
                  ['line'] * 6 + ['opcode'] * (3 if tier == 'thorough' else 1)))}
     tape = draw(tapes(tier)) if K > 1 else {'entries': [], 'tail': None}
+    if K == 1 and draw(st.integers(0, 3)) == 0:
+        # a long sequential history: the operation list is executed many times
+        knobs['repeat'] = draw(st.sampled_from([40, 60] if tier == 'quick' else [40, 150, 400]))
     if K > 1:
         # write-point-directed schedules derived from a profiling run
         knobs['sweep'] = draw(st.sampled_from(
